@@ -414,4 +414,30 @@ Section DocLevel.
       as (st2 & ts & out & Er & _).
     inversion Er; subst. eexists. reflexivity.
   Qed.
+
+  (* the same with any larger fuel *)
+  Theorem parser_work_class_total_fuel fuel st latex :
+    doc_in_class st latex = true ->
+    (mu (macros st) (fst (scan P latex)) < fuel)%nat ->
+    exists r, parser_work T (exec T rd fuel) st latex = Ok r.
+  Proof.
+    unfold doc_in_class. intros Hd Hf. unfold parser_work.
+    destruct (scan P latex) as [toks ds]. cbn [fst] in *.
+    apply andb_true_iff in Hd. destruct Hd as [Hd Hb].
+    apply andb_true_iff in Hd. destruct Hd as [Hds Hsk].
+    destruct ds; [|discriminate]. cbn [add_diags fold_left].
+    assert (Hs : skip_regions T (S (length toks)) (upd_latex st latex) latex toks
+                 = (upd_latex st latex, toks)).
+    { cbn [skip_regions]. rewrite find_index_none; [reflexivity|].
+      apply Forall_forall. intros t Ht. rewrite forallb_forall in Hsk.
+      apply negb_true_iff. apply Hsk. exact Ht. }
+    rewrite Hs. unfold expand_fresh. apply bclb_ok in Hb.
+    assert (Hb' : bcl T (macros (upd_latex st latex)) toks) by exact Hb.
+    destruct (exec_args_total T rd Htab fuel toks [] _ Hb'
+                ltac:(cbn [macros upd_latex]; lia)) as [[st1 an] E].
+    rewrite E. cbn [rbind fst snd].
+    destruct (exec_args T rd Htab Hsp Hblank _ toks [] _ _ Hb' E)
+      as (st2 & ts & out & Er & _).
+    inversion Er; subst. eexists. reflexivity.
+  Qed.
 End DocLevel.
